@@ -82,6 +82,7 @@ type c15Case struct {
 	prefix                     string
 	unasserted                 bool
 	leafPath                   []string // schema path to the carrying leaf in the compiled tree
+	writerMods                 []string // modules in which the expression text is written (an error must point into one of them)
 	twoCopies                  bool     // a second carrier ("carrier2") holds the same text, written in the using module
 	expectNS2                  string   // namespace the prefix denotes there
 }
@@ -146,6 +147,10 @@ func c15Build(placement, stmt, pu string, ex c15Expr, custom string) *c15Case {
 		other = def
 	}
 	writerPrefix := writer.Find("prefix").Arg
+	c.writerMods = []string{writer.Arg}
+	if placement == "grouping-other-module-plus-own-copy" {
+		c.writerMods = append(c.writerMods, "c15-use") // the second copy is written there
+	}
 	imp := func(m *yang.Stmt, mod, pfx string) {
 		m.Add(yang.S("import", mod, yang.S("prefix", pfx)))
 	}
@@ -397,6 +402,19 @@ func (p *c15) Run(tier string, seed int64, idx int) core.CaseResult {
 			res.Fail("C15/error-does-not-quote-expression/"+c.stmt, input, cr.Err)
 		} else if !locRe.MatchString(cr.Err) {
 			res.Fail("C15/error-without-statement-location/"+c.stmt, input, cr.Err)
+		} else if c.stmt != "path" {
+			// the statement named is one that carries the expression: it lies in a module where the text is written
+			loc := locRe.FindString(cr.Err)
+			ok := false
+			for _, w := range c.writerMods {
+				if strings.HasPrefix(loc, w+".yang:") {
+					ok = true
+				}
+			}
+			res.Ev("error_locations_checked_for_module", 1)
+			if !ok {
+				res.Fail("C15/error-names-a-statement-of-another-module/"+c.stmt+"/"+c.placement, input, fmt.Sprintf("the expression is written in %v, the error points to %s\n%s", c.writerMods, loc, cr.Err))
+			}
 		}
 		return res
 	}
